@@ -26,20 +26,26 @@ impl V {
         matches!(self, V::Seq(_) | V::Map(_))
     }
 
-    /// Canonical tree notation shared with the TLA+ oracle and decode.py:
-    /// {"t": tag, "v": payload}; ints in decimal strings, floats as 16 hex digits
-    /// of the IEEE bit pattern ("nan" for any NaN), strings as lists of code points.
+    /// Canonical tree notation shared with the TLA+ oracle (spec/XtData.tla) and decode.py:
+    /// uniformly shaped nodes {"t": tag, "s": payload, "d": digits, "xs": children}.
     pub fn tree(&self) -> J {
+        fn node(t: &str, s: String, d: Vec<u8>, xs: Vec<J>) -> J {
+            json!({"t": t, "s": s, "d": d, "xs": xs})
+        }
         match self {
-            V::Null => json!({"t": "null"}),
-            V::Bool(b) => json!({"t": "bool", "v": b}),
-            V::Int(i) => json!({"t": "int", "v": i.to_string()}),
-            V::F64(f) => json!({"t": "float", "v": fbits(*f)}),
-            V::F32(f) => json!({"t": "float", "v": fbits(f64::from(*f))}),
-            V::Str(s) => json!({"t": "str", "v": s.chars().map(|c| c as u32).collect::<Vec<u32>>()}),
-            V::Bin(b) => json!({"t": "bin", "v": crate::util::hex(b)}),
-            V::Seq(xs) => json!({"t": "seq", "v": xs.iter().map(V::tree).collect::<Vec<J>>()}),
-            V::Map(es) => json!({"t": "map", "v": es.iter().map(|(k, v)| json!([k.tree(), v.tree()])).collect::<Vec<J>>()}),
+            V::Null => node("null", String::new(), vec![], vec![]),
+            V::Bool(b) => node("bool", b.to_string(), vec![], vec![]),
+            V::Int(i) => {
+                let mut d = vec![u8::from(*i < 0)];
+                d.extend(i.unsigned_abs().to_string().bytes().map(|c| c - b'0'));
+                node("int", i.to_string(), d, vec![])
+            }
+            V::F64(f) => node("float", fbits(*f), vec![], vec![]),
+            V::F32(f) => node("float", fbits(f64::from(*f)), vec![], vec![]),
+            V::Str(s) => node("str", crate::util::hex(s.as_bytes()), vec![], vec![]),
+            V::Bin(b) => node("bin", crate::util::hex(b), vec![], vec![]),
+            V::Seq(xs) => node("seq", String::new(), vec![], xs.iter().map(V::tree).collect()),
+            V::Map(es) => node("map", String::new(), vec![], es.iter().map(|(k, v)| node("pair", String::new(), vec![], vec![k.tree(), v.tree()])).collect()),
         }
     }
 
